@@ -61,7 +61,7 @@ func (w *e1World) porcupineCheck(all []*opRec, seqsI interface{}, cfg *e1Config)
 					return nil
 				}
 				for h := range cur {
-					if w.reg[h].Time >= o.time {
+					if w.reg[h] != nil && w.reg[h].Time >= o.time {
 						return nil
 					}
 				}
